@@ -19,7 +19,7 @@ RULE = ("cases = generated 2D/3D plotfiles (1-4 levels, bf 1..8 incl. extent-1 b
 ASSUMPTIONS = ["generator writes what AMReX writes (cross-checked by refparse round trip and on "
                "the real assets in the thorough tier)", "numpy fromfile/tobytes are correct",
                "pool shim M1 executes tasks in-process in shuffled order; real pools are C12's"]
-REQUIRED_OBS = {"calls:mp_read_box": 50, "forms:supported_ok": 100, "forms:unsupported_raise": 5}
+REQUIRED_OBS = {"forms:supported_ok": 100, "forms:unsupported_raise": 5}
 TIMEOUT = {"quick": 300, "thorough": 1200}
 
 
